@@ -256,27 +256,56 @@ def vercmp (a b : Raw) : Ordering :=
 
 /-! ### operators and hash -/
 
-/-- `rpm.RpmVersion`: `__lt__ __gt__ __eq__ __le__ __ge__` are hand-written from
-`compare_rpm_versions`; `__ne__` is NOT written: the NamedTuple inherits `tuple.__ne__`, which
-compares the three fields textually. -/
+/-- `rpm.RpmVersion`: all six of `__lt__ __gt__ __eq__ __le__ __ge__ __ne__` are hand-written
+from `compare_rpm_versions` (`__ne__` since the repair 9738a24; before it the NamedTuple
+inherited the textual `tuple.__ne__`). -/
 def valOps : VOps Raw where
   lt a b := vercmp a b == .lt
   gt a b := vercmp a b == .gt
   eq a b := vercmp a b == .eq
   le a b := vercmp a b != .gt
   ge a b := vercmp a b != .lt
-  ne a b := decide (a ≠ b)
+  ne a b := vercmp a b != .eq
 
 /-- `univers.versions.RpmVersion` defines no dunder: all six come from attrs on `Version`
-(1-tuples `(self.value,)`; `__ne__` is attrs' negation of `__eq__`, so the textual
-`tuple.__ne__` of the value is never consulted at this level). -/
+(1-tuples `(self.value,)`; `__ne__` is attrs' negation of `__eq__`). -/
 def verOps : VOps Raw := Univers.Py.attrsOps valOps
 
-/-- attrs `__hash__` on `Version` hashes `(value,)`; the NamedTuple keeps `tuple.__hash__`
-(the class body's `__eq__` is installed after class creation, so `__hash__` is not reset). -/
+/-! ### `__hash__` = `hash((epoch, get_segments(version), get_segments(release)))` -/
+
+/-- `re.findall(r"[0-9]+|[a-zA-Z]+|~|\^", s)`: scan from the left; at each position the first
+alternative that matches (greedily) yields a token, otherwise the character is skipped. -/
+def findSegs (s : List Char) : List (List Char) :=
+  match s with
+  | [] => []
+  | c :: r =>
+    if c.isDigit then (c :: r).takeWhile Char.isDigit :: findSegs (r.dropWhile Char.isDigit)
+    else if c.isAlpha then (c :: r).takeWhile Char.isAlpha :: findSegs (r.dropWhile Char.isAlpha)
+    else if c == '~' then ['~'] :: findSegs r
+    else if c == '^' then ['^'] :: findSegs r
+    else findSegs r
+termination_by s.length
+decreasing_by
+  all_goals simp_wf
+  all_goals first
+    | omega
+    | (have := dropWhile_length_le Char.isDigit r; omega)
+    | (have := dropWhile_length_le Char.isAlpha r; omega)
+
+/-- `seg.lstrip("0") if seg.isdigit() else seg` (repair 39a75b5: a digits run is kept as text
+without its leading zeros, `"000"` becomes `""`; no `int()`) -/
+def convSeg (t : List Char) : List Char :=
+  if !t.isEmpty && t.all Char.isDigit then t.dropWhile (fun c => c == '0') else t
+
+/-- `get_segments(s)`: a tuple of `str` -/
+def getSegments (s : List Char) : List (List Char) := (findSegs s).map convSeg
+
+/-- attrs `__hash__` on `Version` hashes `(value,)`; the value class defines `__hash__`. -/
 def hashable : Bool := true
 
-/-- `hash(version)` is a function of the tuple `(epoch, version, release)` -/
-def hashKey (r : Raw) : Raw := r
+/-- `hash(version)` is a function of the tuple
+`(epoch, get_segments(version), get_segments(release))` -/
+def hashKey (r : Raw) : Int × List (List Char) × List (List Char) :=
+  (r.epoch, getSegments r.version, getSegments r.release)
 
 end Univers.Rpm
